@@ -18,7 +18,7 @@ def eprint(*a):
     print(*a, file=sys.stderr, flush=True)
 
 def write_failure_file(prop_id, sub, seed, tier, failure):
-    d = os.path.join(VERIF_HOME, "failures", prop_id)
+    d = os.path.join(os.environ.get("VERIF_FAILDIR") or os.path.join(VERIF_HOME, "failures"), prop_id)
     os.makedirs(d, exist_ok=True)
     h = hash_case(failure.get("case"))
     path = os.path.join(d, f"{sub}-seed{seed}-{h}.json")
